@@ -414,7 +414,7 @@ func (i *interpreter) unwrap(e iface) (iface, bool) {
 	if e.t == nil {
 		return iface{}, false
 	}
-	f := i.prog.ssa.LookupMethod(e.t, nil, "Unwrap")
+	f := i.lookupMethodOrNil(e.t, "Unwrap")
 	if f == nil || f.Signature.Params().Len() != 0 || f.Signature.Results().Len() != 1 {
 		return iface{}, false
 	}
@@ -423,6 +423,15 @@ func (i *interpreter) unwrap(e iface) (iface, bool) {
 	}
 	r := call(i, nil, f.Pos(), f, []value{e.v}).(iface)
 	return r, r.t != nil
+}
+
+// lookupMethodOrNil: the exported method name of T, or nil when T has no
+// such method (ssa.Program.LookupMethod panics in that case).
+func (i *interpreter) lookupMethodOrNil(T types.Type, name string) *ssa.Function {
+	if i.prog.ssa.MethodSets.MethodSet(T).Lookup(nil, name) == nil {
+		return nil
+	}
+	return i.prog.ssa.LookupMethod(T, nil, name)
 }
 
 func (i *interpreter) errorsIs(err, target iface) value {
@@ -443,7 +452,7 @@ func (i *interpreter) errorsIs(err, target iface) value {
 				}
 			}
 		}
-		if f := i.prog.ssa.LookupMethod(err.t, nil, "Is"); f != nil && f.Signature.Params().Len() == 1 {
+		if f := i.lookupMethodOrNil(err.t, "Is"); f != nil && f.Signature.Params().Len() == 1 {
 			if r, ok := call(i, nil, f.Pos(), f, []value{err.v, target}).(bool); ok && r {
 				return true
 			}
